@@ -36,8 +36,27 @@ def _unbatch(a, n, B):
     return np.moveaxis(a, 0, -1).reshape(-1, n)
 
 
-def check_linear(res, cfg, facts, in_specs, impl, ref, tau_rel=1e-9, allowed_raise=None, raise_is_skip=False,
-                 validate_tol=1e-10, max_sat=3, timeout_ms=10000, what='output', real_pw=None, sym_pw=None, seed=1, oracle_offset=False):
+def check_linear(res, cfg, facts, in_specs, impl, ref, **kw):
+    """explores every feasible data-dependent path of the symbolic run (normally exactly one)"""
+    return core.run_paths(res, lambda: _check_linear_path(res, cfg, facts, in_specs, impl, ref, **kw))
+
+
+def _pc_point(ids, pc):
+    """a dyadic point on the current path: list of arrays shaped like ids, or None"""
+    import z3 as _z3
+    ps = smt.Solver(stats=smt.Stats()); ps.keep_sample = False
+    for i in ids:
+        for a in i.reshape(-1):
+            ps.var(int(a))
+    ps.add_path(pc)
+    m = ps.nice_model(_z3.BoolVal(True), [a for a in ps.vars if P.ATOMS.kind[a] in ('in', 'cot', 'par')])
+    if m is None:
+        return None
+    return [core.model_array(m, i) for i in ids]
+
+
+def _check_linear_path(res, cfg, facts, in_specs, impl, ref, tau_rel=1e-9, allowed_raise=None, raise_is_skip=False,
+                       validate_tol=1e-10, max_sat=3, timeout_ms=10000, what='output', real_pw=None, sym_pw=None, seed=1, oracle_offset=False):
     rt = symtorch.real_torch()
     rng = np.random.default_rng(seed)
     rpw = real_pw or symtorch.real()
@@ -53,8 +72,24 @@ def check_linear(res, cfg, facts, in_specs, impl, ref, tau_rel=1e-9, allowed_rai
     res.symexec_s += time.time() - t0
     res.funcs = sorted(set(res.funcs) | T.STATE.funcs_entered)
     all_ids = np.concatenate([i.reshape(-1) for i in ids])
+    pc = list(P.PATHS.taken)
+    if pc:
+        facts = dict(facts, path=[bool(d) for _, d in pc])
+        what = what + ' [data-dependent path %s]' % facts['path']
     # ---- real run on the actual shape (outcome) ---------------------------------------------
     xs = [rng.uniform(-1, 1, size=s) for _, s in in_specs]
+    if pc:
+        env0 = P.AtomEnv()
+        for i, x in zip(ids, xs):
+            for a, v in zip(i.reshape(-1), x.reshape(-1)):
+                env0[int(a)] = float(v)
+        if not core.path_env_ok(env0):
+            xs = _pc_point(ids, pc)
+            if xs is None:
+                res.notes.append('no dyadic point found on path %s; path skipped' % facts['path'])
+                if res.status == 'held':
+                    res.status = 'inconclusive'
+                return None
     r1 = core.outcome(lambda: impl(rpw, [rt.tensor(x, dtype=rt.float64) for x in xs]))
     if so[0] == 'unsupported':
         res.status = 'inconclusive'; res.notes.append('symbolic engine: ' + so[1])
@@ -107,8 +142,11 @@ def check_linear(res, cfg, facts, in_specs, impl, ref, tau_rel=1e-9, allowed_rai
             res.violations.append(dict(what='%s %s has shape %s, reference %s' % (what, nm, gs, es), facts=facts,
                                        replay=dict(kind='shape', name=nm), reproduced=rs == gs))
             return None
-    # ---- engine validation on the whole operator ------------------------------------------------
-    rb = core.outcome(lambda: impl(rpw, [rt.tensor(p, dtype=rt.float64) for p in parts]))
+    # ---- engine validation on the whole operator (single-path runs) or at a point on the path ------
+    if pc:
+        rb = ('ok', None)
+    else:
+        rb = core.outcome(lambda: impl(rpw, [rt.tensor(p, dtype=rt.float64) for p in parts]))
     if rb[0] != 'ok':
         res.status = 'error'; res.trace = 'real torch fails on the batched basis: %r' % (rb[:3],)
         return None
@@ -122,7 +160,21 @@ def check_linear(res, cfg, facts, in_specs, impl, ref, tau_rel=1e-9, allowed_rai
         if R.size:
             scale = max(scale, float(np.abs(R).sum(axis=1).max()))
     dev = 0.0
-    for (nm, t), (_, rr) in zip(souts, rb[1]):
+    if pc:
+        envp = P.AtomEnv()
+        for i, x in zip(ids, xs):
+            for a, v in zip(i.reshape(-1), x.reshape(-1)):
+                envp[int(a)] = float(v)
+        for (nm, t), (_, rr) in zip(souts, r1[1]):
+            if t is None:
+                continue
+            sv = np.array([p.evalf(envp) for p in t.a.reshape(-1)])
+            rv = rr.detach().numpy().reshape(-1)
+            if sv.shape != rv.shape:
+                res.status = 'error'; res.trace = 'shape of %s differs between symbolic and real run' % nm; return None
+            if sv.size:
+                dev = max(dev, float(np.abs(sv - rv).max()))
+    for (nm, t), (_, rr) in (zip(souts, rb[1]) if not pc else []):
         if t is None:
             continue
         try:
@@ -136,11 +188,12 @@ def check_linear(res, cfg, facts, in_specs, impl, ref, tau_rel=1e-9, allowed_rai
             return None
         if M.size:
             dev = max(dev, float(np.abs(M - Rm).max()), float(np.abs(c0).max()))
-    res.validated = dev
-    if dev > validate_tol * scale:
+    res.validated = dev if res.validated is None else max(res.validated, dev)
+    if dev > max(validate_tol, 1e-9 if pc else 0) * scale:
         res.status = 'error'; res.trace = 'symbolic operator deviates from real torch by %g (scale %g)' % (dev, scale)
         return None
     # oracle affinity: ref(x) == rows @ x, ref(0) == 0
+    xs = [rng.uniform(-1, 1, size=s_) for _, s_ in in_specs] if pc else xs
     ox = ref(xs); oz = ref([np.zeros_like(x) for x in xs])
     xflat = np.concatenate([x.reshape(-1) for x in xs])
     for R, a, z in zip(rows_all, ox, oz):
@@ -153,6 +206,10 @@ def check_linear(res, cfg, facts, in_specs, impl, ref, tau_rel=1e-9, allowed_rai
     tau = Fraction(tau_rel).limit_denominator(10 ** 15) * Fraction(scale)
     st = res.stats or smt.Stats()
     solver = smt.Solver(stats=st, timeout_ms=timeout_ms)
+    if pc:
+        for a in all_ids:
+            solver.var(int(a))
+        solver.add_path(pc)
     sats = []
     first = None
     for (nm, t), R in zip(souts, rows_all):
@@ -168,6 +225,8 @@ def check_linear(res, cfg, facts, in_specs, impl, ref, tau_rel=1e-9, allowed_rai
                 res.nontrivial = True
             v, model = solver.decide_amplified(d, tau, label='%s[%d]' % (nm, k))
             if v == 'sat':
+                if pc:
+                    model = solver.nice_model(solver._last_query, [int(a) for a in all_ids]) or model
                 sats.append((nm, k, model))
             elif v != 'unsat':
                 res.status = 'inconclusive'; res.notes.append('solver answered %s on %s[%d]' % (v, nm, k))
@@ -190,7 +249,7 @@ def check_linear(res, cfg, facts, in_specs, impl, ref, tau_rel=1e-9, allowed_rai
         rep = replay_values(impl, ref, xv, names.index(nm), k, float(tau), rpw)
         res.violations.append(dict(what='%s %s[%d] differs from the reference by %.3g (tau %.3g)' % (what, nm, k, rep['diff'], float(tau)),
                                    facts=facts, replay=dict(kind='values', xs=[x.tolist() for x in xv], out=names.index(nm), k=int(k), tau=float(tau)),
-                                   reproduced=rep['reproduced']))
+                                   reproduced=rep['reproduced'], path_dependent=bool(pc)))
     if res.violations:
         res.status = 'violation'
     return dict(souts=souts, ids=ids, all_ids=all_ids, rows=rows_all, scale=scale, tau=tau, solver=solver)
